@@ -472,4 +472,161 @@ def Recv.recvAll (frag : Frag) : List Kind → Recv → List Val × Recv × Opti
       let (vs, r', e) := recvAll frag ks r
       (v :: vs, r', e)
 
+/-! ## Send half with transport faults (writer goroutine error path)
+
+`writer()`:  `if c.writerErr == nil { _, err := c.conn.Write(buf); if err != nil
+{ c.writerErr = err } }; c.fromWriter <- buf[0:cap(buf)]` - the goroutine keeps
+taking buffers after an error but does not write them any more (f07ee15).  `Flush()`: `Sent += WritePos; toWriter <- buf;
+next := <-fromWriter; if c.writerErr != nil { return c.writerErr }` - on that
+path `WriteBuf`/`WritePos` are left unchanged and `next` is dropped.
+`Close()`: `if err := c.Flush(); err != nil { return err }` (no drain, the
+transport is not closed), otherwise drain and `return c.writerErr`. -/
+
+/-- Outcome of the `i`-th `conn.Write`: `none` = every byte written, `nil`
+error; `some k` = an error after `min k len` bytes were written (io.Writer
+contract: a short write returns a non-nil error). -/
+abbrev Fault := Nat → Option Nat
+
+/-- State of the send half with faults.  `handed` (ghost) = every buffer the
+writer goroutine took from `toWriter`, in order; `wire` = the bytes each
+`conn.Write` actually wrote; `free` = buffers in `fromWriter`; `werr` =
+`c.writerErr != nil`. -/
+structure FSender where
+  cur : ByteArray := ByteArray.empty
+  queue : List ByteArray := []
+  handed : List ByteArray := []
+  wire : List ByteArray := []
+  free : Nat := numBuffers - 1
+  sent : Nat := 0
+  flushed : Nat := 0
+  werr : Bool := false
+  deriving Inhabited
+
+def FSender.init : FSender := {}
+
+/-- One iteration of the writer goroutine (since /repo f07ee15):
+`for buf := range c.toWriter { if c.writerErr == nil { _, err := c.conn.Write(buf);
+if err != nil { c.writerErr = err } }; c.fromWriter <- buf[0:cap(buf)] }` -
+after a failed `Write` later buffers are taken and returned but not written.
+The fault oracle is indexed by the number of `Write` calls made so far. -/
+def FSender.writerStep (fault : Fault) (s : FSender) : FSender :=
+  match s.queue with
+  | [] => s
+  | h :: t =>
+    if s.werr then { s with queue := t, handed := s.handed ++ [h], free := s.free + 1 }
+    else
+      match fault s.wire.length with
+      | none => { s with queue := t, handed := s.handed ++ [h], wire := s.wire ++ [h], free := s.free + 1 }
+      | some k => { s with queue := t, handed := s.handed ++ [h], wire := s.wire ++ [h.extract 0 k],
+                           free := s.free + 1, werr := true }
+
+/-- The writer iteration as it was before f07ee15 (`_, err := c.conn.Write(buf);
+if err != nil { c.writerErr = err }` unconditionally): it kept writing after a
+failed `Write`.  Only used by the witness `C11_old_writer_gap_witness`. -/
+def FSender.writerStepOld (fault : Fault) (s : FSender) : FSender :=
+  match s.queue with
+  | [] => s
+  | h :: t =>
+    match fault s.wire.length with
+    | none => { s with queue := t, handed := s.handed ++ [h], wire := s.wire ++ [h], free := s.free + 1 }
+    | some k => { s with queue := t, handed := s.handed ++ [h], wire := s.wire ++ [h.extract 0 k],
+                         free := s.free + 1, werr := true }
+
+def FSender.writerSteps (fault : Fault) : Nat → FSender → FSender
+  | 0, s => s
+  | k + 1, s => writerSteps fault k (s.writerStep fault)
+
+/-- `c.Stats.Sent.Add(uint64(c.WritePos)); c.toWriter <- c.WriteBuf[0:c.WritePos]` -/
+def FSender.handOver (s : FSender) : FSender :=
+  { s with sent := s.sent + s.cur.size, queue := s.queue ++ [s.cur] }
+
+/-- `next := <-c.fromWriter; if c.writerErr != nil { return c.writerErr };
+c.WriteBuf = next; c.WritePos = 0; c.Stats.Flushed.Add(1)` - on the error path
+`WriteBuf/WritePos` stay as they are and `next` is dropped. -/
+def FSender.takeNext (s : FSender) : FSender × Bool :=
+  if s.werr then ({ s with free := s.free - 1 }, false)
+  else ({ s with free := s.free - 1, cur := ByteArray.empty, flushed := s.flushed + 1 }, true)
+
+/-- `Conn.Flush` with its error path; the result flag is `err == nil`.
+`<-c.fromWriter` blocks while that channel is empty, which forces a writer
+iteration. -/
+def FSender.flush (fault : Fault) (k : Nat) (s : FSender) : FSender × Bool :=
+  if s.cur.size = 0 then (s, true) else
+    (s.handOver.writerSteps fault (max k (if s.handOver.free = 0 then 1 else 0))).takeNext
+
+def FSender.flushS (fault : Fault) (sch : Sched) (s : FSender) : FSender × Bool :=
+  s.flush fault (sch s.flushed)
+
+def FSender.reserve (fault : Fault) (sch : Sched) (n : Nat) (s : FSender) : FSender × Bool :=
+  if s.cur.size + n > writeBufSize then s.flushS fault sch else (s, true)
+
+def FSender.put (b : ByteArray) (s : FSender) : FSender := { s with cur := s.cur ++ b }
+
+/-- `SendByte/SendUint16/SendUint32/SendLabel`: `if WritePos+k > len { if err := Flush(); err != nil { return err } }; copy`. -/
+def FSender.sendBytes (fault : Fault) (sch : Sched) (b : ByteArray) (s : FSender) : FSender × Bool :=
+  match s.reserve fault sch b.size with
+  | (s, false) => (s, false)
+  | (s, true) => (s.put b, true)
+
+def FSender.sendDataLoop (fault : Fault) (sch : Sched) (val : ByteArray) (off : Nat) (s : FSender) :
+    FSender × Bool :=
+  if _h : off < val.size then
+    match (if s.cur.size ≥ writeBufSize then s.flushS fault sch else (s, true)) with
+    | (s, false) => (s, false)
+    | (s, true) =>
+      let n := min (writeBufSize - s.cur.size) (val.size - off)
+      if _hn : n = 0 then (s, false) else
+        sendDataLoop fault sch val (off + n) (s.put (val.extract off (off + n)))
+  else (s, true)
+termination_by val.size - off
+decreasing_by omega
+
+def FSender.sendData (fault : Fault) (sch : Sched) (val : ByteArray) (s : FSender) : FSender × Bool :=
+  match s.sendBytes fault sch (be 4 val.size) with
+  | (s, false) => (s, false)
+  | (s, true) => s.sendDataLoop fault sch val 0
+
+def FSender.sendSizesLoop (fault : Fault) (sch : Sched) : List Nat → FSender → FSender × Bool
+  | [], s => (s, true)
+  | x :: xs, s =>
+    match s.sendBytes fault sch (be 4 x) with
+    | (s, false) => (s, false)
+    | (s, true) => sendSizesLoop fault sch xs s
+
+def FSender.sendVal (fault : Fault) (sch : Sched) (s : FSender) : Val → FSender × Bool
+  | .byte b => s.sendBytes fault sch [b].toByteArray
+  | .u16 n => s.sendBytes fault sch (be 2 n)
+  | .u32 n => s.sendBytes fault sch (be 4 n)
+  | .data d => s.sendData fault sch d
+  | .str d => s.sendData fault sch d
+  | .label n => s.sendBytes fault sch (be 16 n)
+  | .sizes l =>
+    match s.sendBytes fault sch (be 4 l.length) with
+    | (s, false) => (s, false)
+    | (s, true) => s.sendSizesLoop fault sch l
+
+def FSender.step (fault : Fault) (sch : Sched) (s : FSender) : Op → FSender × Bool
+  | .send v => s.sendVal fault sch v
+  | .flush => s.flushS fault sch
+  | .needSpace n => s.reserve fault sch n
+
+/-- A caller that stops at the first error: returns the state, the number of
+operations that succeeded and whether all did. -/
+def FSender.run (fault : Fault) (sch : Sched) : List Op → FSender → FSender × Nat × Bool
+  | [], s => (s, 0, true)
+  | o :: os, s =>
+    match s.step fault sch o with
+    | (s, false) => (s, 0, false)
+    | (s, true) =>
+      let (s', n, ok) := run fault sch os s
+      (s', n + 1, ok)
+
+/-- `Conn.Close` with its error paths. -/
+def FSender.close (fault : Fault) (sch : Sched) (s : FSender) : FSender × Bool :=
+  match s.flushS fault sch with
+  | (s, false) => (s, false)
+  | (s, true) =>
+    let s := s.writerSteps fault s.queue.length
+    (s, !s.werr)
+
 end Mpc.Conn
